@@ -3,7 +3,7 @@
 # Exits 1 iff the property's statement is violated for this case, 0 otherwise.
 import sys, json
 import cffi
-case = json.loads('{"bitsize": 64, "bitshift": 0, "old": 0, "v": 18446716989377342255, "size": 8, "signed": false, "bool": false, "obligation": "unsigned8:rejected=>out-of-range"}')
+case = json.loads('{"bitsize": 64, "bitshift": 0, "old": 0, "v": 13296813481336164926, "size": 8, "signed": false, "bool": false, "obligation": "unsigned8:rejected=>out-of-range"}')
 size, signed, isbool = case['size'], case['signed'], case.get('bool', False)
 bitsize, bitshift, old, v = case['bitsize'], case['bitshift'], case['old'], case['v']
 tname = {1: 'char', 2: 'short', 4: 'int', 8: 'long long'}[size]
